@@ -423,32 +423,27 @@ impl Exp {
     /// # Returns
     /// String representation with appropriate parentheses based on operator precedence
     pub fn to_string_with_precedence(&self, last_operator: BinOp) -> String {
-        let last_precedence = last_operator.precedence();
+        self.to_string_as_operand(last_operator, false)
+    }
+
+    /// Renders the expression as an operand of `parent`, `is_rhs` tells on which side it sits.
+    /// A child is wrapped when it binds looser than its parent, or equally tight on the
+    /// side where re-parsing would regroup it: `a - (b - c)`, `a / (b * c)`.
+    fn to_string_as_operand(&self, parent: BinOp, is_rhs: bool) -> String {
         match self {
             Exp::BinOp(op, lhs, rhs) => {
-                let string_lhs = lhs.to_string_with_precedence(*op);
-                let string_rhs = rhs.to_string_with_precedence(*op);
-                let precedence = op.precedence();
-                if precedence < last_precedence {
+                let string_lhs = lhs.to_string_as_operand(*op, false);
+                let string_rhs = rhs.to_string_as_operand(*op, true);
+                let regroups = op.precedence() == parent.precedence()
+                    && if is_rhs {
+                        parent.is_left_associative()
+                    } else {
+                        !op.is_left_associative()
+                    };
+                if op.precedence() < parent.precedence() || regroups {
                     format!("({} {} {})", string_lhs, op, string_rhs)
                 } else {
-                    //TODO improve this
-                    match last_operator {
-                        BinOp::Add
-                        | BinOp::Mul
-                        | BinOp::Div
-                        | BinOp::And
-                        | BinOp::Or
-                        | BinOp::Xor
-                        | BinOp::Implies
-                        | BinOp::Iff => {
-                            format!("{} {} {}", string_lhs, op, string_rhs)
-                        }
-                        BinOp::Sub => match rhs.is_leaf() {
-                            true => format!("{} {} {}", string_lhs, op, string_rhs),
-                            false => format!("{} {} ({})", string_lhs, op, string_rhs),
-                        },
-                    }
+                    format!("{} {} {}", string_lhs, op, string_rhs)
                 }
             }
             _ => self.to_string(),
@@ -570,9 +565,8 @@ impl fmt::Display for Exp {
                     .join(", ")
             ),
             Exp::BinOp(operator, lhs, rhs) => {
-                //TODO: add parenthesis when needed
-                let string_lhs = lhs.to_string_with_precedence(*operator);
-                let string_rhs = rhs.to_string_with_precedence(*operator);
+                let string_lhs = lhs.to_string_as_operand(*operator, false);
+                let string_rhs = rhs.to_string_as_operand(*operator, true);
                 format!("{} {} {}", string_lhs, operator, string_rhs)
             }
             Exp::UnOp(op, exp) => {
